@@ -142,6 +142,14 @@ process_deeper(const char *fname, input_stream_t *ibs, output_stream_t *os,
     ssize_t t_len;
     ssize_t l_len;
 
+    if(level > 1000) {
+        /* Each nested constructed TLV costs a stack frame */
+        osprintfError(os, "%s: TLV nesting is too deep (%d levels) at %lld. "
+                          "Broken or maliciously constructed file\n",
+                      fname, level, (long long)ibs->bytesRead(ibs));
+        return PD_FAILED;
+    }
+
     for(;;) {
         ber_tlv_len_t local_esize = 0;
         int constr;
